@@ -104,7 +104,7 @@ RDB_ASSUME = BASE_ASSUME + ["ref/rdbgen: independent RDB writer (lengths, int/LZ
 prop("C03", "A full sync reproduces the source snapshot's dataset on the target", "exploration",
      "a case = dataset (1-12 keys over DBs 0,1,2,5,15; every type; expiries none / >=1h past / >=1h future; IDLE/FREQ) x per-value RDB encoding (raw/int/LZF strings; linked list, ziplist, quicklist v1, quicklist v2 plain+packed; table/intset 16-32-64/listpack sets; "
      "skiplist v1 ascii/v2 binary, ziplist, listpack sorted sets incl. +-inf; zipmap (free bytes, len byte 254, 5-byte lengths), ziplist, listpack, table hashes; stream listpacks v1-v4 with SAMEFIELDS/own fields, deleted entries, groups, PELs, empty stream; integer boundary values of every width and sign; "
-     "ziplists with zllen 65535; LZF-compressed blobs) x container (versions 6-13, AUX, RESIZEDB, SLOT_INFO, EXPIRETIME seconds/ms, checksum or 0) x replay configuration (restore on/off, MaxProtoBulkLen 40..512MiB, parallel 1-8, pipe size 1-1024, injective db map, split threshold 48B..16MiB via hook, target version 4-8, reader fragmentation). "
+     "ziplists with zllen 65535; LZF-compressed blobs) x container (versions 6-13, AUX, RESIZEDB, SLOT_INFO, EXPIRETIME seconds/ms, checksum or 0) x replay configuration (restore on/off, MaxProtoBulkLen 40..512MiB, parallel 1-8, pipe size 1-1024, injective db map, split threshold 48B..16MiB via hook, target version 4-8, reader fragmentation; one configuration in five with replay.replaceHashTag, the reference then expects every key under its name without the first '{' and the first '}' - switched off for a case in which two keys would collapse). "
      "One configuration in four uses the bidirectional snapshot path (every key in its own MULTI / marker / value / EXEC; its own handling of the key-exists policy and of split values). "
      "On the RESTORE path the target optionally refuses the payload of every 1st/2nd/3rd snapshot key with ERR Bad data format (after the BUSYKEY and footer checks, as restoreCommand does); the tool then falls back to native commands, or stops, in which case nothing is judged. "
      "non-trivial (measured) = distinct case in which both replay paths were taken (>=1 RESTORE accepted and >=1 native expansion command executed) and a compact encoding held a negative or >=24-bit integer. "
@@ -115,7 +115,7 @@ prop("C03", "A full sync reproduces the source snapshot's dataset on the target"
      RDB_ASSUME)
 
 prop("C20", "Pre-existing target keys are handled as the configured policy says, on any path", "exploration",
-     "a case = C03's snapshot generator (<=8 keys, all encodings) x replay configuration x policy {replace, ignore, error} x pre-populated target: each snapshot key exists beforehand with probability 1/2, with the same or another type (string/list/set/zset/hash/stream), with or without a TTL, plus optionally a key outside the snapshot. "
+     "a case = C03's snapshot generator (<=8 keys, all encodings) x replay configuration x policy {replace, ignore, error} x pre-populated target: each snapshot key exists beforehand with probability 1/2, with the same or another type (string/list/set/zset/hash/stream), with or without a TTL, plus optionally a key outside the snapshot. One case in eight is scripted: a table-encoded hash of 8-20 fields under a key with one or two brace pairs, renamed on the way (replaceHashTag), split into parts by a 48-64 byte threshold, over a pre-existing key. "
      "The replay path of each pre-existing key (RESTORE / native expansion / split into chunks) follows from restore on/off, MaxProtoBulkLen and the split threshold and is measured. non-trivial = distinct case with a pre-existing key of a DIFFERENT type on the expansion path, or a pre-existing key under a split value. "
      "Oracle: replace -> final value/expiry of every snapshot key == snapshot (C03 comparison); ignore -> every pre-existing key byte-identical (value, type, expiry), other keys as in C03; error -> Send returns an error iff a snapshot key pre-existed, and every pre-existing key is unmodified; keys outside the snapshot never change.",
      [{"pkg": "c20", "test": "TestC20",
